@@ -57,6 +57,7 @@ type Cfg struct {
 	MaxTasks int    `json:"max_tasks,omitempty"`
 	Crash    string `json:"crash,omitempty"`
 	Race     bool   `json:"race,omitempty"`
+	SoftSec  int    `json:"soft_sec,omitempty"`
 }
 
 func (c Cfg) env() map[string]string {
@@ -90,6 +91,9 @@ func execSpec(c *chk.Ctx, root string, s *spec.Spec, cfg Cfg, behav vproto.Behav
 		bin = c.RaceBin
 		soft, hard = 90*time.Second, 300*time.Second
 		env["GORACE"] = "halt_on_error=0 log_path=" + filepath.Join(root, "meta", "race")
+	}
+	if cfg.SoftSec > 0 {
+		soft = time.Duration(cfg.SoftSec) * time.Second
 	}
 	cs := &run.Case{Root: root, Bin: bin, Spec: sp, Env: env, Behav: behav, KeepWd: keepWd, RunNo: runNo, Soft: soft, Hard: hard}
 	c.Eval(1)
